@@ -3,7 +3,7 @@ H = 'quill/backend/StringFromTime.h'
 TFH = 'quill/backend/TimestampFormatter.h'
 
 STRUCT = dict(c='SFT', header=H, cls='StringFromTime',
-              only=['_cached_indexes', '_next_recalculation_timestamp', '_cached_timestamp', '_cached_seconds', '_time_zone'],
+              only=['_cached_indexes', '_next_recalculation_timestamp', '_cached_timestamp', '_cached_seconds', '_time_zone', '_is_cacheable'],
               typemap={'std::vector<std::pair<size_t, format_type>>': 'IdxVec', 'Timezone': 'Timezone', 'time_t': 'time_t'})
 PRELUDE = r'''
 #include <time.h>
@@ -61,10 +61,11 @@ format_timestamp = dict(
                            (r'_pre_formatted_ts\.clear\(\)\s*;\s*_cached_indexes\.clear\(\)\s*;', 'STUB_clear(self);', 1),
                            (PATCH_RE, r'STUB_patch(\1, \2, \3, \4, \5, \6, \7);', 1)],
                 contract=r'''
-__CPROVER_requires(__CPROVER_is_fresh(self, sizeof(*self)) && self->_time_zone <= TZ_GmtTime && timestamp >= 0 && timestamp < (((time_t)1) << 40) && g_anchor_ts >= 0 && self->_next_recalculation_timestamp < (((time_t)1) << 40) && CI(self))
+__CPROVER_requires(__CPROVER_is_fresh(self, sizeof(*self)) && self->_time_zone <= TZ_GmtTime && timestamp >= 0 && timestamp < (((time_t)1) << 40) && g_anchor_ts >= 0 && self->_next_recalculation_timestamp < (((time_t)1) << 40) && (self->_is_cacheable ==> CI(self)))
 __CPROVER_requires(!g_patched && !g_fallback && !g_repopulated)
 __CPROVER_assigns(self->_cached_timestamp, self->_cached_seconds, self->_next_recalculation_timestamp, g_anchor_ts, g_anchor_sod, g_fallback, g_repopulated, g_patched, g_put_H, g_put_M, g_put_S, g_put_I, g_put_l, g_put_k, g_put_s, g_clears)
-__CPROVER_ensures(CI(self)) /*@ C13 "the cache invariant holds after every call (cached seconds = second-of-day of the cached instant, no midnight before the next recalculation point)" */
+__CPROVER_ensures(self->_is_cacheable ==> CI(self)) /*@ C13 "the cache invariant holds after every call (cached seconds = second-of-day of the cached instant, no midnight before the next recalculation point)" */
+__CPROVER_ensures(!self->_is_cacheable ==> g_fallback) /*@ C13 "a pattern with a time-of-day conversion the cache does not rewrite (or an escaped percent sign) is always rendered by strftime directly" */
 __CPROVER_ensures(g_fallback ==> (!g_patched && !g_repopulated && self->_cached_timestamp == OLD(self->_cached_timestamp) && self->_cached_seconds == OLD(self->_cached_seconds) && self->_next_recalculation_timestamp == OLD(self->_next_recalculation_timestamp) && g_anchor_ts == OLD(g_anchor_ts))) /*@ C13 "rendering by strftime directly leaves the cache untouched" */
 __CPROVER_ensures(!g_fallback ==> (g_anchor_ts <= timestamp && timestamp < self->_next_recalculation_timestamp)) /*@ C13 "a result served from the cache is for an instant inside the cached period (a timestamp going backwards past it is never served from the cache)" */
 __CPROVER_ensures((!g_fallback && (self->_cached_indexes.g_nonempty || g_repopulated)) ==> self->_cached_timestamp == timestamp) /*@ C13 "the cache describes the requested instant afterwards: a later timestamp never shows stale fields" */
@@ -170,7 +171,7 @@ tf_ctor = dict(
     structs=[], prelude=CT_PRELUDE, enforce='TF_ctor', replace=['INIT_PART1', 'INIT_PART2'],
     funcs=[dict(src=dict(header=TFH, cls='TimestampFormatter', name='TimestampFormatter'), cfun='TF_ctor', sig='void TF_ctor(TFc* self)', cls_c='TF',
                 member_fields=['_additional_format_specifier', '_has_format_part_2', '_timestamp_timezone'], exceptions=True, may_throw=['INIT_PART1', 'INIT_PART2'],
-                pre_rules=[(r'AdditionalSpecifier::(\w+)', r'AS_\1'), (r'_time_format\.find\(specifier_name\[(AS_\w+)\]\)', r'FIND_SPEC(\1)'), (r'std::string::npos', 'NPOS'),
+                pre_rules=[(r'AdditionalSpecifier::(\w+)', r'AS_\1'), (r'(?:_time_format\.find\(|_find_specifier\(_time_format,\s*)specifier_name\[(AS_\w+)\]\)', r'FIND_SPEC(\1)'), (r'std::string::npos', 'NPOS'),
                            (r'_strftime_part_1\.init\(_time_format,\s*_timestamp_timezone\)\s*;', 'INIT_PART1(self, 0, g_len);'),
                            (r'std::string\s+const\s+format_part_1\s*=\s*_time_format\.substr\(0,\s*specifier_begin\)\s*;\s*_strftime_part_1\.init\(format_part_1,\s*_timestamp_timezone\)\s*;', 'INIT_PART1(self, 0, specifier_begin);'),
                            (r'std::string\s+const\s+format_part_2\s*=\s*_time_format\.substr\(specifier_end,\s*_time_format\.length\(\) - specifier_end\)\s*;', 'size_t const format_part_2_len = g_len - specifier_end;'),
@@ -185,14 +186,16 @@ __CPROVER_ensures((COUNT_SPECS == 0 && g_exc == 0) ==> (g_init1_calls == 1 && g_
 __CPROVER_ensures((COUNT_SPECS == 1 && g_exc == 0) ==> (self->_additional_format_specifier == THE_SPEC && g_init1_calls == 1 && g_p1_begin == 0 && g_p1_len == THE_POS && g_init2_calls == ((THE_POS + 4 < g_len) ? 1 : 0) && (g_init2_calls == 1 ==> (g_p2_begin == THE_POS + 4 && g_p2_len == g_len - (THE_POS + 4) && self->_has_format_part_2)))) /*@ C13 "the pattern is split exactly around the fractional specifier: text before it, the specifier (4 characters), text after it" */
 ''')],
     harness='  TFc* t; TF_ctor(t);',
-    dropped=['pattern text: positions of the three specifiers are symbolic (std::string::find)', 'mem-initialiser list (moves the pattern string)', 'assert (NDEBUG)'],
+    dropped=['pattern text: positions of the three (unescaped) specifiers are symbolic (_find_specifier: std::string::find skipping escaped occurrences - string code, covered by the native unit TF.strftime only)', 'mem-initialiser list (moves the pattern string)', 'assert (NDEBUG)'],
     trusted=['std::string::find / substr', 'StringFromTime::init (rejects %X: unit SFT.init)'], min_obligations=20)
 UNITS.append(tf_ctor)
 
 IN_PRELUDE = r'''
 typedef uint8_t Timezone; enum { TZ_LocalTime, TZ_GmtTime };
-typedef struct SFTi { Timezone _time_zone; } SFTi;
-bool g_has_X; size_t g_replaces, g_populates, g_clock, g_t_last_replace, g_t_populate; int g_replaced[3];
+typedef struct SFTi { Timezone _time_zone; bool _is_cacheable; } SFTi;
+bool g_has_X, g_can_cache;   /* answers of the two pattern scans (string code) */
+static inline bool CAN_CACHE(SFTi* s) { return g_can_cache; }
+ size_t g_replaces, g_populates, g_clock, g_t_last_replace, g_t_populate; int g_replaced[3];
 static inline bool FORMAT_has_X(SFTi* s) { return g_has_X; }
 void REPLACE_ALL(SFTi* self, int which) __CPROVER_requires(which >= 0 && which < 3) __CPROVER_assigns(g_replaces, g_clock, g_t_last_replace, __CPROVER_object_whole(g_replaced))
 __CPROVER_ensures(g_replaces == OLD(g_replaces) + 1 && g_clock == OLD(g_clock) + 1 && g_t_last_replace == g_clock && g_replaced[0] == (which == 0 ? 1 : OLD(g_replaced[0])) && g_replaced[1] == (which == 1 ? 1 : OLD(g_replaced[1])) && g_replaced[2] == (which == 2 ? 1 : OLD(g_replaced[2])));
@@ -200,22 +203,23 @@ void SFT__populate_initial_parts(SFTi* self) __CPROVER_assigns(g_populates, g_cl
 '''
 sft_init = dict(
     name='SFT.init', primary='C13', props={'C13'}, kind='S',
-    desc='StringFromTime::init: %X is rejected; %r, %R and %T are expanded before the pattern is split into parts',
+    desc='StringFromTime::init: %X is rejected; a pattern the cache cannot serve is left untouched and marked; otherwise %r, %R and %T are expanded before the pattern is split into parts',
     structs=[], prelude=IN_PRELUDE, enforce='SFT_init', replace=['REPLACE_ALL', 'SFT__populate_initial_parts'],
     funcs=[dict(src=dict(header=H, cls='StringFromTime', name='init'), src_params=['timestamp_format', 'timezone'], cfun='SFT_init', sig='void SFT_init(SFTi* self, Timezone timezone)', cls_c='SFT',
-                member_fields=['_time_zone'], siblings=['_populate_initial_parts'], exceptions=True, may_throw=[],
+                member_fields=['_time_zone', '_is_cacheable'], siblings=['_populate_initial_parts'], exceptions=True, may_throw=[],
                 pre_rules=[(r'_timestamp_format\s*=\s*std::move\(timestamp_format\)\s*;', ''), (r'_timestamp_format\.find\("%X"\)\s*!=\s*std::string::npos', 'FORMAT_has_X(self)'),
-                           (r'throw\s*\(?\s*QuillError\s*\(.*?\)\s*\)?\s*;', 'throw(QuillError{"x"});'),
+                           (r'throw\s*\(?\s*QuillError\s*\(.*?\)\s*\)?\s*;', 'throw(QuillError{"x"});'), (r'_can_cache_format\(_timestamp_format\)', 'CAN_CACHE(self)'),
                            (r'_replace_all\(_timestamp_format,\s*"%r",\s*"%I:%M:%S %p"\)', 'REPLACE_ALL(self, 0)'), (r'_replace_all\(_timestamp_format,\s*"%R",\s*"%H:%M"\)', 'REPLACE_ALL(self, 1)'),
                            (r'_replace_all\(_timestamp_format,\s*"%T",\s*"%H:%M:%S"\)', 'REPLACE_ALL(self, 2)'), (r'_populate_initial_parts\(_timestamp_format\)', '_populate_initial_parts()')],
                 contract=r'''
 __CPROVER_requires(__CPROVER_is_fresh(self, sizeof(*self)) && g_exc == 0 && g_replaces == 0 && g_populates == 0 && g_clock == 0 && g_replaced[0] == 0 && g_replaced[1] == 0 && g_replaced[2] == 0 && timezone <= TZ_GmtTime)
-__CPROVER_assigns(self->_time_zone, g_exc, g_replaces, g_populates, g_clock, g_t_last_replace, g_t_populate, __CPROVER_object_whole(g_replaced))
+__CPROVER_assigns(self->_time_zone, self->_is_cacheable, g_exc, g_replaces, g_populates, g_clock, g_t_last_replace, g_t_populate, __CPROVER_object_whole(g_replaced))
 __CPROVER_ensures(g_has_X ==> (g_exc == EXC_STD && g_populates == 0)) /*@ C13 "%X is rejected when the formatter is created" */
-__CPROVER_ensures(!g_has_X ==> (g_exc == 0 && g_replaced[0] == 1 && g_replaced[1] == 1 && g_replaced[2] == 1 && g_replaces == 3 && g_populates == 1 && g_t_last_replace < g_t_populate && self->_time_zone == timezone)) /*@ C13 "%r, %R and %T are expanded to their H/M/S forms (so that the cached fields cover them) before the pattern is split; the time zone is recorded" */
+__CPROVER_ensures((!g_has_X && !g_can_cache) ==> (g_exc == 0 && !self->_is_cacheable && g_replaces == 0 && g_populates == 0 && self->_time_zone == timezone)) /*@ C13 "a pattern the cache cannot serve is kept exactly as the user wrote it (no expansion, no splitting) and marked for strftime" */
+__CPROVER_ensures((!g_has_X && g_can_cache) ==> (g_exc == 0 && self->_is_cacheable && g_replaced[0] == 1 && g_replaced[1] == 1 && g_replaced[2] == 1 && g_replaces == 3 && g_populates == 1 && g_t_last_replace < g_t_populate && self->_time_zone == timezone)) /*@ C13 "%r, %R and %T are expanded to their H/M/S forms (so that the cached fields cover them) before the pattern is split; the time zone is recorded" */
 ''')],
     harness='  SFTi* s; Timezone z; SFT_init(s, z);',
-    dropped=['the pattern string (presence of %X as a boolean); _replace_all and _populate_initial_parts / _split_timestamp_format_once (string and std::map code: NOT covered)'], trusted=[], min_obligations=10)
+    dropped=['the pattern string (presence of %X and the answer of _can_cache_format as booleans: string scans, covered by the native unit TF.strftime); _replace_all and _populate_initial_parts / _split_timestamp_format_once (string and std::map code: NOT covered)'], trusted=[], min_obligations=10)
 UNITS.append(sft_init)
 
 # ------------------------------------------------------------------------------------------ _next_noon_or_midnight_timestamp
